@@ -114,7 +114,7 @@ CHECKS.update({
 
 CHECKS.update({
     "C02": dict(
-        text="Lean: C02.and_sound_lex / or_sound_lex (and and_sound / or_sound / isEmpty_sound / isAny_sound / rewriting_sound) - for "
+        text="Lean: C02.and_sound_final / or_sound_final (and and_sound / or_sound / isEmpty_sound / isAny_sound / rewriting_sound) - for "
              "EVERY fuel (whether or not the fixpoint loops ran to completion), every environment that binds its variables "
              "PEP 508-style (EnvTotal: final interpreter versions, python_version = major.minor of python_full_version; a concrete "
              "instance is proved, env0_total) and all markers over atoms of the well-defined classes, `&`/`|` are satisfied exactly "
@@ -122,14 +122,15 @@ CHECKS.update({
              "union_simplify / intersect_simplify, cnf/dnf, least-complexity choice in union()) on top of the single-marker layer "
              "(string case table from C19, grouped ==/!= atoms, extra, set-valued extras) and the Python-version bridge: "
              "fromSpecOk_of_lex (from_specifier builds an atom that means the specifier: C06 round trip + C04 leaf theorem + "
-             "C11 coherence) and pyMergeOk_of_fromSpec (python_version/python_full_version merge; pyNorm_sem). The only assumptions "
-             "left are two character-level facts (LexPrintOk: the operand text from_specifier writes is read back as its clause; "
-             "LexNormOk: the string surgery of _normalize_python_version_specifier computes the structured normalisation), instances "
-             "of which are evaluated in the kernel, and the restriction to specifiers without post-release bounds, which is forced "
-             "(known finding D4a reaches markers). The model is compared structurally with the real classes on the exhaustive "
+             "C11 coherence) and pyMergeOk_of_fromSpec (python_version/python_full_version merge; pyNorm_sem), including the "
+             "character-level facts they rest on: lexPrint_final (the operand text from_specifier writes is read back as its clause: "
+             "int(str(n)) = n, Version of a rendered release, operator and .* lexing) and lexNorm_final (the string surgery of "
+             "_normalize_python_version_specifier - split, drop trailing 0 segments, pad, int()+1, join, re-parse - computes the "
+             "structured normalisation). No assumption is left beyond EnvTotal and Good atoms (specifier views over plain final "
+             "releases; with post-release bounds the property is false of the code: known finding D4a reaches markers). The model is compared structurally with the real classes on the exhaustive "
              "single-layer pool grid, targeted python_version streams and random marker pairs; evaluate() of every result is "
              "judged against the operands on literal-derived environments.",
-        technique="Lean 4 proof (engine induction for every fuel; bridge hypotheses discharged down to character-level lexing) "
+        technique="Lean 4 proof (engine induction for every fuel; bridge facts proved down to characters) "
                   "over a hand-written model + structural differential correspondence",
         design_ref="0.2, 6/C02"),
     "C03": dict(
@@ -167,12 +168,13 @@ CHECKS.update({
              "returns None or a marker of good atoms satisfied exactly when the version is admitted (C06's round trip for every "
              "rendering incl. ~= and !=X.*, zero padding of python_full_version operands, coherence of the new atom). "
              "python_version vs python_full_version: pyNorm_sem (`op A.B` on X.Y holds iff the normalised clause holds on X.Y.Z: "
-             "== -> A.B.*, > -> >= A.(B+1), <= -> < A.(B+1)), normGood_of_lex, pyMergeOk_of_fromSpec. Assumed: character-level "
-             "lexing only (LexOne proved for values without `,`, `|`, blanks: lexOne_of_clean; LexPrintOk, LexNormOk - instances "
-             "evaluated in the kernel). in/not in lists disagree with PEP 508's substring reading (known finding G2). Differential: "
+             "== -> A.B.*, > -> >= A.(B+1), <= -> < A.(B+1)), normGood_of_lex, pyMergeOk_of_fromSpec. Character level: "
+             "lexOne_of_clean, lexPrint_final, lexNorm_final are theorems (Proofs/LexLemmas.lean, LexNorm.lean); what remains "
+             "modelled rather than proved is that the Lean character functions are what CPython's str methods and packaging's "
+             "regexes do. in/not in lists disagree with PEP 508's substring reading (known finding G2). Differential: "
              "every atom x interpreter grid compares `v in marker.specifier` with evaluate(), and from_specifier output with the "
              "specifier, structurally and by evaluation.",
-        technique="Lean 4 proof (both directions, down to character-level lexing assumptions) + exhaustive-grid differential testing",
+        technique="Lean 4 proof (both directions, down to characters) + exhaustive-grid differential testing",
         design_ref="0.2, 6/C11"),
     "C12": dict(
         text="Lean: C12.only_mentions / only_implied / only_same / exclude_mentions / exclude_implied / exclude_same_partial for "
